@@ -125,6 +125,8 @@ def gen_cases(tier, seed):
         cases.append({"kind": "ctor", "seed": int(rng.integers(2 ** 31)), "variant": k})
     for k in range(8 if tier == "quick" else 80):
         cases.append({"kind": "scalar_ops", "seed": int(rng.integers(2 ** 31))})
+    for k in range(6 if tier == "quick" else 60):
+        cases.append({"kind": "int_ops", "seed": int(rng.integers(2 ** 31))})
     for shp in [[3], [2, 3], [3, 2, 2], [1], [4, 1], []]:
         cases.append({"kind": "iteration", "shape": shp, "seed": int(rng.integers(2 ** 31))})
     return cases
@@ -301,7 +303,25 @@ def run_ctor(ns, case):
     chk("Tensor:float64-list", T64, data64.shape, "float64", data64, False)
     T64a = ns.Tensor(data64)
     chk("Tensor:float64-array", T64a, data64.shape, "float64", data64, False)
-    return {"keys": keys, "evals": n, "viol": dedup(viol), "counters": {"ctor_checks": n}, "cover": {"ctors": sorted({k[1] for k in keys})}}
+    # every call of a factory returns a fresh, correct tensor: what the caller did to an earlier result (optimizer steps write in place) is not seen
+    nind = 0
+    for nm, make, ref in (("ones", lambda: sg.ones(shp or (2,)), np.ones(shp or (2,))), ("zeros", lambda: sg.zeros(shp or (2,)), np.zeros(shp or (2,))),
+                          ("eye", lambda: sg.eye(d), np.eye(d)), ("eye:float64", lambda: sg.eye(d, dtype=np.float64), np.eye(d)),
+                          ("arange", lambda: sg.arange(5), np.arange(5)), ("ones_like", lambda: sg.ones_like(src), np.ones(shp)),
+                          ("zeros_like", lambda: sg.zeros_like(src), np.zeros(shp))):
+        try:
+            r1 = make()
+            r1.data[...] = -7
+            r2 = make()
+            r1.data[...] = -9
+        except Exception as e:
+            viol.append(V(f"ctor:{nm}:raises", f"{nm} raised {type(e).__name__} on a repeated call", error=str(e)[:200])); continue
+        nind += 1
+        if np.shares_memory(r1.data, r2.data) or not np.array_equal(np.asarray(r2.data, dtype=np.float64), ref):
+            viol.append(V(f"ctor:{nm}:result-depends-on-earlier-result", f"a second {nm}() call returned values that follow what was written into the first result",
+                          got=np.asarray(r2.data).ravel()[:6].tolist()))
+    return {"keys": keys, "evals": n + nind, "viol": dedup(viol), "counters": {"ctor_checks": n, "factory_independence_checks": nind},
+            "cover": {"ctors": sorted({k[1] for k in keys})}}
 
 
 def dedup(viol):
@@ -340,6 +360,50 @@ def run_scalar_ops(ns, case):
                                   f"{nm} with Python scalar {s}: " + why, dtype=np.dtype(dt).name, result_dtype=str(out.data.dtype)))
                 keys.append(("scalar", nm, np.dtype(dt).name, len(shp)))
     return {"keys": keys, "evals": n, "viol": dedup(viol), "counters": {"scalar_op_checks": n}}
+
+
+def run_int_ops(ns, case):
+    """integer / bool tensors as operands: either the operation refuses, or it answers with the mathematically right value - never with a truncated one"""
+    rng = gen.rng_for(case["seed"], "intops")
+    T = ns.Tensor
+    viol, keys, n, rejected = [], [], 0, 0
+    shp = tuple(int(v) for v in rng.integers(1, 4, int(rng.integers(1, 3))))
+    for idt in (np.int64, np.int32, np.bool_):
+        if idt == np.bool_:
+            tv = rng.integers(0, 2, shp).astype(bool)
+            if not tv.any():
+                tv.flat[0] = True
+        else:
+            tv = rng.integers(1, 7, shp).astype(idt) * rng.choice([-1, 1], shp).astype(idt)
+        t64 = tv.astype(np.float64)
+        xv = rng.uniform(0.5, 2.0, shp)
+        forms = {
+            "t+1": (lambda t, x: t + 1, t64 + 1), "t*t": (lambda t, x: t * t, t64 * t64), "t-x": (lambda t, x: t - x, t64 - xv), "x*t": (lambda t, x: x * t, xv * t64),
+            "t.sum()": (lambda t, x: t.sum(), t64.sum()), "t.mean()": (lambda t, x: t.mean(), t64.mean()), "t.mean(0)": (lambda t, x: t.mean(0), t64.mean(0)),
+            "t.mean(-1,keepdims)": (lambda t, x: t.mean(-1, True), t64.mean(-1, keepdims=True)), "t.max()": (lambda t, x: t.max(), t64.max()),
+            "t*0.5": (lambda t, x: t * 0.5, t64 * 0.5), "t/2": (lambda t, x: t / 2, t64 / 2),
+        }
+        if idt != np.bool_:
+            forms.update({"t**-1.0": (lambda t, x: t ** -1.0, 1.0 / t64), "t**-1": (lambda t, x: t ** -1, 1.0 / t64), "1/t": (lambda t, x: 1 / t, 1.0 / t64),
+                          "x/t": (lambda t, x: x / t, xv / t64), "t**2": (lambda t, x: t ** 2, t64 ** 2), "t**0.5:abs": (lambda t, x: (t * t) ** 0.5, np.abs(t64)),
+                          "t/t": (lambda t, x: t / t, np.ones(shp))})
+        for nm, (f, ref) in forms.items():
+            n += 1
+            try:
+                with np.errstate(all="ignore"):
+                    out = f(T(tv.copy()), T(xv.copy()))
+            except Exception:
+                rejected += 1
+                continue
+            got = np.asarray(out.data, dtype=np.float64)
+            ref = np.asarray(ref, dtype=np.float64)
+            keys.append(("int-ops", nm, np.dtype(idt).name))
+            if got.shape != ref.shape:
+                viol.append(V(f"int-operand:{nm}:shape", f"{nm} on a {np.dtype(idt).name} tensor: shape {list(got.shape)} != {list(ref.shape)}"))
+            elif not np.allclose(got, ref, rtol=1e-6, atol=1e-6):
+                viol.append(V(f"int-operand:{nm}:answered-with-a-truncated-or-wrong-value", f"{nm} on a {np.dtype(idt).name} tensor answered {got.ravel()[:4].tolist()} "
+                              f"where the value is {ref.ravel()[:4].tolist()} (refusing would have been acceptable)", dtype=np.dtype(idt).name))
+    return {"keys": keys, "evals": n, "viol": dedup(viol), "counters": {"int_operand_checks": n, "int_operand_rejected": rejected}}
 
 
 def run_iteration(ns, case):
@@ -396,6 +460,8 @@ def run_case(ns, ctx, case):
         r = run_ctor(ns, case)
     elif k == "scalar_ops":
         r = run_scalar_ops(ns, case)
+    elif k == "int_ops":
+        r = run_int_ops(ns, case)
     else:
         r = run_iteration(ns, case)
     r["viol"] = r.get("viol", []) + ctx.drain()
